@@ -373,9 +373,12 @@ def repair_residue(molecule, ref_residue, include_graph):
             node = {}
             for key, val in ref_residue.items():
                 # Some attributes are only relevant on a residue level, not on
-                # an atom level.
+                # an atom level. And a position is never a property of a
+                # residue: the residue node carries one only when the residue
+                # consists of a single atom, and the atoms we add must not
+                # inherit it.
                 if key not in ('match', 'found', 'reference', 'nnodes',
-                               'nedges', 'density'):
+                               'nedges', 'density', 'position'):
                     node[key] = val
             ref_node = reference.nodes[ref_idx].copy()
             if 'resid' in ref_node:
